@@ -55,14 +55,17 @@ def check_norm_inf(rep, pdb, path, key):
 def run(rep, pdb, tier):
     n_el = 0
     for fn in pdb.local_fns():
-        if fn["file"] == "src/vector/arithmetic.rs" and fn.get("impl_trait") in OP_OF_TRAIT and forwards_to(pdb, fn) is None:
+        from .common import involves_adt
+        if (fn["file"] == "src/vector/arithmetic.rs" or (involves_adt(fn, "vector::Vector") and not any("Matrix" in str(a_) or "Tridiagonal" in str(a_) or "Banded" in str(a_) for a_ in [fn.get("impl_self")] + list(fn.get("impl_trait_args", []) or [])))) \
+                and fn.get("impl_trait") in OP_OF_TRAIT and forwards_to(pdb, fn) is None:
             rule_elementwise(rep, pdb, fn)
             n_el += 1
     from .c03 import rule_delegation
     n_del = rule_delegation(rep, pdb, ("src/vector/arithmetic.rs",))
     # ---- editing methods are single forwarding calls to the Vec method that defines them
     for name, (suffix, want) in EDITS.items():
-        cands = [f for f in pdb.find(name=name) if f["file"] in ("src/vector/operations.rs", "src/vector/functions.rs")]
+        from .common import self_adt
+        cands = [f for f in pdb.find(name=name) if f["file"] in ("src/vector/operations.rs", "src/vector/functions.rs") or (self_adt(f) == "vector::Vector" and not f.get("impl_trait"))]
         key = "edit/%s" % name
         rule = "the editing method is one forwarding call to the std Vec/slice method that defines it, on self.vec, with the arguments in order"
         if len(cands) != 1:
@@ -222,7 +225,8 @@ def run(rep, pdb, tier):
         check_norm_inf(rep, pdb, path, "abs-norms/norm_inf/%s" % ("f64" if "Complex" not in path else "Cmplx"))
     # ---- find
     fn = pdb.find(name="find")
-    fn = [f for f in fn if f["file"] == "src/vector/functions.rs"]
+    from .common import self_adt as _sa
+    fn = [f for f in fn if f["file"] == "src/vector/functions.rs" or (_sa(f) == "vector::Vector" and not f.get("impl_trait"))]
     rule = "find returns the position of the FIRST match (Iterator::position with ==) and size-1 (saturating at 0 for the empty vector) otherwise"
     if len(fn) != 1:
         rep.missing("find", rule, "not found")
